@@ -22,13 +22,14 @@ def main(run):
 
 
 def replay(run, path):
-    j = json.load(open(path))
-    rp = j.get("replay") or {}
+    """also the replay of the T04 stage inside C09 / C05 (run.prop is the host then): common.replay_begin"""
+    j, rp = replay_load(path)
+    if "theorem_file" in rp and "case" not in rp:
+        return replay_theorem(run, path, j, rp)
     print(j.get("what"))
     c = rp.get("case")
-    if not c:
-        print(json.dumps(j, indent=1, ensure_ascii=False)[:6000])
-        return 0
+    if not (isinstance(c, dict) and all(k in c for k in ('journal', 'audit', 'sel'))):
+        return replay_print(j)
     print(json.dumps({k: c.get(k) for k in ("audit", "hash", "rtz", "price", "filter", "sel", "git")}, indent=1, ensure_ascii=False))
     print("journal:\n%s" % c["journal"])
     if rp.get("first_differing_character") is not None:
@@ -44,9 +45,7 @@ def replay(run, path):
     T.check_cases(run, [c], st)
     print("metadata text of the implementation now:\n%s" % c.get("impl_md"))
     for what, rep, found in run.violations:
-        print("REPRODUCED: %s%s" % (what, "" if found else " (no failing input: correspondence only)"))
         if rep.get("model_text") is not None:
             print("implementation text now:\n%s\nmodel text now:\n%s" % (rep.get("implementation_text"), rep.get("model_text")))
-    if not run.violations:
-        print("not reproduced: texts equal and oracle clean now (compared=%s, stages=%s)" % (st["compared"], st["stages"]))
-    return 1 if run.violations else 0
+    return replay_verdict(run, path, j, "T04 stage: metadata texts equal the model's and the reading oracle is clean now (compared=%s, stages=%s)"
+                          % (st["compared"], st["stages"]))
